@@ -250,7 +250,7 @@ Definition k_ret_tmp (ls : lst) (tmp : tmpinfo) (is_create : bool) (r : kres) : 
       end
   end.
 
-Definition k_slmax : nat := 64.
+Definition k_slmax : nat := 40.   (* memfs_types.go slCountMax *)
 
 Fixpoint cpath_eqb (a b : cpath) : bool :=
   match a, b with
